@@ -147,6 +147,9 @@ func drain(ch chan struct{}) {
 }
 
 // NewPipe creates a connected pair. Addresses must be *net.TCPAddr / *net.UDPAddr.
+// Dgram reports whether the endpoint preserves message boundaries (UDP-like).
+func (e *End) Dgram() bool { return e.dgram }
+
 func (n *Net) NewPipe(aName, bName string, aAddr, bAddr net.Addr, dgram bool) *Pipe {
 	n.S.Lock()
 	defer n.S.Unlock()
